@@ -87,10 +87,45 @@ USERS = ["alice", "bob", "carol"]
 
 # ---------------------------------------------------------------- workload generation
 @st.composite
-def gen_frame(draw, idx):
+def gen_frame(draw, idx, only=None):
     v = draw(st.sampled_from(H.VERSIONS))
     pool = hist.pool_items(idx, v)
-    kind = draw(st.sampled_from(["creator", "creator", "pool", "pool", "versioned", "batch", "garbage"]))
+    kind = only or draw(st.sampled_from(["creator", "creator", "pool", "pool", "versioned", "batch", "garbage",
+                                 "refused-as-a-whole", "hot", "hot"]))
+    if kind in ("hot", "hot-new"):
+        # reads and state changes of ONE object that every session of its owner goes for: an
+        # object of the store, or the object the first session is about to create (identifiers
+        # are handed out in sequence, so the others can name it)
+        hot = idx["SymmetricKey/PRE_ACTIVE"]
+        if kind == "hot-new":
+            hot = str(max(int(u) for u in idx.values() if str(u).isdigit()) + 1)
+        item = draw(st.sampled_from([
+            {"op": "GetAttributes", "uid": hot}, {"op": "GetAttributes", "uid": hot, "names": ["State"]},
+            {"op": "GetAttributes", "uid": hot, "names": ["State"]}, {"op": "GetAttributeList", "uid": hot},
+            {"op": "Get", "uid": hot}, {"op": "Activate", "uid": hot}, {"op": "Activate", "uid": hot},
+            {"op": "Activate", "uid": hot},
+            {"op": "Revoke", "uid": hot, "code": "CESSATION_OF_OPERATION"},
+            {"op": "Revoke", "uid": hot, "code": "KEY_COMPROMISE"}, {"op": "Destroy", "uid": hot},
+            {"op": "Locate", "attrs": [["State", "ACTIVE"]]},
+            {"op": "ModifyAttribute", "uid": hot, "attr": ["Name", "hot-renamed", 0]} if v < (2, 0)
+            else {"op": "SetAttribute", "uid": hot, "new": ["Sensitive", True]}]))
+        return {"v": list(v), "items": [item]}
+    if kind == "refused-as-a-whole":
+        # requests the engine refuses before any item runs: the error answer is built by the
+        # session after the engine has been left
+        fr = {"v": list(v), "items": [{"op": "Query"}]}
+        how = draw(st.sampled_from(["stale", "future", "async", "undo", "no-items"]))
+        if how == "stale":
+            fr["ts"] = 1_000_000_000
+        elif how == "future":
+            fr["ts"] = 2_000_000_000
+        elif how == "async":
+            fr["async"] = True
+        elif how == "undo":
+            fr["cont"] = "UNDO"
+        else:
+            fr["items"] = []
+        return fr
     if kind == "garbage":
         return {"garbage": draw(st.sampled_from(["42007801000000100000000000000000" + "00" * 8,
                                                  "420078010000000842006901000000" + "00" * 1]))}
@@ -124,10 +159,25 @@ def gen_workload(draw):
     _, idx = store.standard_template()
     nc = draw(st.sampled_from([2, 2, 2, 3]))
     users = draw(st.permutations(USERS))[:nc]
+    if draw(st.integers(0, 2)) == 0:
+        users = ["alice"] * nc          # one user on several connections
     clients = []
-    for u in users:
+    contention = draw(st.integers(0, 1)) == 0
+    if contention:
+        users = ["alice"] * nc      # every session belongs to the owner of the contended object
+    newobj = contention and draw(st.booleans())
+    for k, u in enumerate(users):
         nf = draw(st.sampled_from([1, 2, 2, 3] if nc == 2 else [1, 1, 2]))
-        clients.append({"who": u, "frames": [draw(gen_frame(idx)) for _ in range(nf)]})
+        if contention:
+            nf = draw(st.sampled_from([1, 2, 2, 3]))
+        frames = [draw(gen_frame(idx, ("hot-new" if newobj else "hot") if contention else None))
+                  for _ in range(nf)]
+        if newobj and k == 0:
+            hot_new = str(max(int(x) for x in idx.values() if str(x).isdigit()) + 1)
+            # the creating session reads its new object back before it goes on
+            frames = [{"v": [1, 2], "items": [F.create_item(extra_attrs=[["Name", "c10-hot"]])]},
+                      {"v": [1, 2], "items": [{"op": "GetAttributes", "uid": hot_new}]}] + frames
+        clients.append({"who": u, "frames": frames})
     nsched = draw(st.just(6))
     schedules = []
     for k in range(nsched):
@@ -145,6 +195,7 @@ def gen_workload(draw):
                    "sql": draw(st.sampled_from([0, 5, 30])),
                    "call": draw(st.sampled_from([0, 2, 10, 30])),
                    "http": draw(st.sampled_from([0, 50, 100])),
+                   "lock-timeout": draw(st.sampled_from([0, 0, 50, 100])),
                    "between-requests": draw(st.sampled_from([0, 50, 100]))}
             ln = draw(st.sampled_from([40, 150, 400]))
             schedules.append({"policy": pol,
@@ -178,7 +229,13 @@ def norm_response(data, fr, template_uids):
         p = it.get("payload")
         if p and isinstance(p, dict) and p.get("secret") and str(p.get("uid")) not in template_uids:
             p["secret"]["value"] = "<masked>"
-    return items
+    # the header's protocol version is part of the answer (an error answer built after the engine
+    # was left must still speak the version of ITS request)
+    try:
+        hv = list(H.ttlvref.response_version(data))
+    except Exception:
+        hv = None
+    return [{"header-version": hv}] + items
 
 
 def masked_snapshot(server, template_uids):
@@ -212,7 +269,10 @@ def concurrent_run(spec, choices):
         s = sched.Scheduler(choices["choices"], TRACE_FILES, policy=choices["policy"])
     else:
         s = sched.Scheduler(choices, TRACE_FILES)
-    eng._lock = sched.SchedLock(s) if hasattr(eng, "_lock") else None
+    if hasattr(eng, "_lock"):
+        import threading as _th
+        # same kind of lock as the engine made for itself (a plain Lock may be released by anybody)
+        eng._lock = sched.SchedLock(s, reentrant=isinstance(eng._lock, type(_th.RLock())))
     event.listen(eng._data_store, "connect", lambda con, rec: con.execute("PRAGMA busy_timeout = 30"))
     eng._data_store.dispose()
     event.listen(eng._data_store, "before_cursor_execute",
@@ -368,7 +428,7 @@ def run_case(spec):
                 for ci, c in enumerate(spec["clients"]):
                     for items in observed[ci]:
                         if isinstance(items, list):
-                            for u in hist.created_uids([i for i in items if isinstance(i, dict) and "op" in i]):
+                            for u in hist.created_uids([i for i in items if isinstance(i, dict) and "op" in i and "status" in i]):
                                 if str(u) in owners and owners[str(u)] != c["who"]:
                                     buckets.append(("C10|created-object-owned-by-another-identity",
                                                     "uid %s reported to %s is owned by %r" % (u, c["who"], owners[str(u)])))
@@ -411,7 +471,7 @@ def worker(n, seed):
 def run(ctx):
     store.standard_template()
     n = core.NCPU
-    total = ctx.n(240, 3200)
+    total = ctx.n(320, 4000)
     dicts = core.run_sharded("vlib.props.c10", "worker",
                              [(max(1, total // n), core.derive_seed(ctx.seed, "c10", i)) for i in range(n)])
     return core.merged(PID, dicts)
